@@ -250,6 +250,25 @@ class ModelBackend(Backend):
     def restamp(self, rel):
         pass
 
+    def renumber_generation(self, hist_rel, old_name, new_number):
+        """rename a committed manifest to another generation number and patch the chain accordingly (to reach high generation
+        numbers without thousands of runs); returns the new file name"""
+        from . import fakexml, tokens
+        new_name = "%04d%s" % (new_number, old_name[4:])
+        folder = posixpath.join(self.p(hist_rel), "ascmhl")
+        self.world.nodes[posixpath.join(folder, new_name)] = self.world.nodes.pop(posixpath.join(folder, old_name))
+        chain = self.world.nodes[posixpath.join(folder, "ascmhl_chain.xml")]
+        text = b"".join(chain.content).decode("utf-8")
+        for m in tokens.KEY_RE.finditer(text):
+            if m.group(1) == "XML":
+                el = tokens.lookup(m.group(0)).el
+                p = el.find("path")
+                if p is not None and p.text == old_name:
+                    p.text = new_name
+                    el.attrib["sequencenr"] = str(new_number)
+        chain.cid = self.world.content_cid(chain)
+        return new_name
+
     def set_now(self, t, micro=0):
         self.world.now, self.world.now_micro = t, micro
 
@@ -787,6 +806,20 @@ class RealBackend(Backend):
     def restamp(self, rel):
         """give a directory its build-time modification time back (the kernel bumps it when the tool creates the ascmhl folder)"""
         os.utime(self.p(rel), (DEFAULT_MTIME, DEFAULT_MTIME))
+
+    def renumber_generation(self, hist_rel, old_name, new_number):
+        new_name = "%04d%s" % (new_number, old_name[4:])
+        folder = os.path.join(self.p(hist_rel), "ascmhl")
+        os.rename(os.path.join(folder, old_name), os.path.join(folder, new_name))
+        cp = os.path.join(folder, "ascmhl_chain.xml")
+        text = open(cp, encoding="utf-8").read()
+        import re as _re
+        seq = str(int(old_name[:4]))
+        text = text.replace("<path>%s</path>" % old_name.replace("&", "&amp;").replace("<", "&lt;").replace(">", "&gt;"),
+                            "<path>%s</path>" % new_name.replace("&", "&amp;").replace("<", "&lt;").replace(">", "&gt;"))
+        text = text.replace('sequencenr="%s"' % seq, 'sequencenr="%d"' % new_number, 1)
+        open(cp, "w", encoding="utf-8").write(text)
+        return new_name
 
     def set_now(self, t, micro=0):
         self.now, self.now_micro = t, micro
